@@ -1,8 +1,9 @@
 (** C09 - At most one case of a choice ever holds data.  Theorem-only file.
     Model: Tree/Editor.v (clear_other_case / clear_case / choose and the editor loops);
-    invariant: Tree/ChoiceInv.v.  Theorems proved in Tree/ChoiceProofs.v. *)
+    invariant: Tree/ChoiceInv.v.  Theorems proved in Tree/ChoiceProofs.v and
+    Tree/ChoiceInvProofs.v. *)
 From Coq Require Import ZArith List Bool Strings.Byte.
-From YV Require Import Val.Model Tree.Schema Tree.Editor Tree.Merge Tree.EditorProofs Tree.ChoiceInv Tree.ChoiceProofs.
+From YV Require Import Val.Model Tree.Schema Tree.Editor Tree.Merge Tree.EditorProofs Tree.ChoiceInv Tree.ChoiceProofs Tree.ChoiceInvProofs.
 Import ListNotations.
 
 (** after clearChoiceCase every definition sitting directly in the cleared case is gone *)
@@ -42,3 +43,91 @@ Example C09_nested_switch_now_clears :
   edit_content false kids [v; None; None] [None; None; v] Upsert = Ok [v; None; None]
   /\ inv_content kids [v; None; None] = true.
 Proof. vm_compute. split; reflexivity. Qed.
+
+(** * Upsert preserves the invariant (proved in Tree/ChoiceInvProofs.v)
+
+    No hypothesis on the guards is needed: a definition is written only when its guard is selected
+    in the source ([guard_selected]), which forces the guard to be free of self-conflicts, and the
+    clearing loop (innermost case outwards) leaves, for every (choice, case) on the written
+    definition's guard, no data under another case of that choice.  The source need not satisfy the
+    invariant itself. *)
+
+(** one write at one level: clear the other cases, then put the datum *)
+Theorem C09_write_keeps_one_case : forall kids t i k d,
+  length t = length kids -> nth_error kids i = Some k -> no_conflict (sguard k) = true ->
+  one_case_here kids t = true ->
+  one_case_here kids (set_nth i (Some d) (clear_other_case k kids t)) = true.
+Proof. exact upsert_write_one_case. Qed.
+Print Assumptions C09_write_keeps_one_case.
+
+(** the guard hypothesis of the previous theorem is what the editor's own visit test gives *)
+Theorem C09_visited_guard_ok : forall g kids sc,
+  guard_selected g kids sc = true -> no_conflict g = true.
+Proof. exact guard_selected_no_conflict. Qed.
+
+(** the whole editor, any depth (containers, list rows), either setting of useDefault *)
+Theorem C09_upsert_preserves_inv : forall ud s, wf_schema s = true ->
+  forall src tgt new r, shaped s src = true -> shaped s tgt = true -> inv s tgt = true ->
+  edit_one ud s src tgt new Upsert = Ok r -> shaped s r = true /\ inv s r = true.
+Proof. exact upsert_preserves_inv. Qed.
+Print Assumptions C09_upsert_preserves_inv.
+
+Theorem C09_upsert_content_preserves_inv : forall ud kids src tgt r,
+  forallb wf_schema kids = true ->
+  shaped_kids shaped kids src = true -> shaped_kids shaped kids tgt = true -> inv_content kids tgt = true ->
+  edit_content ud kids src tgt Upsert = Ok r ->
+  shaped_kids shaped kids r = true /\ inv_content kids r = true.
+Proof. exact upsert_content_preserves_inv. Qed.
+Print Assumptions C09_upsert_content_preserves_inv.
+
+(** every upsert history (the full statement above, which asks less of the sources than it offers) *)
+Theorem C09_history : C09_full_statement.
+Proof.
+  intros kids srcs tgt Hwf Ht Hi Hs r Hrun.
+  refine (proj2 (upsert_history_preserves_inv false kids srcs tgt r Hwf Ht Hi _ Hrun)).
+  eapply Forall_impl; [|exact Hs]. intros a [H _]. exact H.
+Qed.
+Print Assumptions C09_history.
+
+(** non-vacuity: two choices, one nested in a case of the other, with a container and a list in
+    cases; a history that switches the inner case, then the outer one, then back *)
+Example C09_history_hyps_met :
+  let mk n g := mkMeta [n] [] true g None in
+  let leaf n g := SLeaf (mk n g) TStr false None in
+  let v b := Some (DLeaf (LV (VStr [b]))) in
+  let row := SCont (mk x72 []) [leaf x6b []; leaf x70 [(0, 0)]; leaf x71 [(0, 1)]]%nat in
+  let kids := [leaf x61 [(0, 0); (1, 0)];
+               SCont (mk x62 [(0, 0); (1, 1)]) [leaf x78 [(0, 0)]; leaf x79 [(0, 1)]];
+               SList (mk x63 [(0, 1)]) [0] row;
+               leaf x64 []]%nat in
+  let tgt := [v x31; None; None; v x32] in
+  let s1 := [None; Some (DCont [v x33; None]); None; None] in
+  let s2 := [None; None; Some (DList [DCont [v x34; v x35; None]]); None] in
+  let s3 := [None; None; Some (DList [DCont [v x34; None; v x36]]); None] in
+  let s4 := [v x37; None; None; None] in
+  forallb wf_schema kids = true /\ shaped_kids shaped kids tgt = true /\ inv_content kids tgt = true /\
+  Forall (fun src => shaped_kids shaped kids src = true /\ inv_content kids src = true) [s1; s2; s3; s4] /\
+  fold_left (fun acc src => match acc with
+                            | Ok t => edit_content false kids src t Upsert
+                            | Err e => Err e end) [s1; s2; s3] (Ok tgt)
+    = Ok [None; None; Some (DList [DCont [v x34; None; v x36]]); v x32] /\
+  fold_left (fun acc src => match acc with
+                            | Ok t => edit_content false kids src t Upsert
+                            | Err e => Err e end) [s1; s2; s3; s4] (Ok tgt)
+    = Ok [v x37; None; None; v x32].
+Proof. vm_compute. repeat split; repeat constructor. Qed.
+
+(** Upsert only: editor.leaf / editor.node call clearOnDifferentChoiceCase under editUpsert alone,
+    so an insert or an update of a leaf of case B over a target holding case A succeeds and leaves
+    both cases populated (model and node/edit.go:90,200 agree on this; on the real code, module
+    "choice c { case a { leaf x } case b { leaf y } }", reflect target {x:1}, source {y:1}:
+    UpsertFrom leaves {y:1}, InsertFrom and UpdateFrom both leave {x:1 y:1} with a nil error). *)
+Example C09_insert_update_do_not_clear :
+  let leaf n g := SLeaf (mkMeta [n] [] true g None) TStr false None in
+  let kids := [leaf x61 [(0, 0)]; leaf x62 [(0, 1)]]%nat in
+  let v := Some (DLeaf (LV (VStr [x31]))) in
+  inv_content kids [v; None] = true /\ inv_content kids [None; v] = true /\
+  edit_content false kids [None; v] [v; None] Insert = Ok [v; v] /\
+  edit_content false kids [None; v] [v; None] Update = Ok [v; v] /\
+  inv_content kids [v; v] = false.
+Proof. vm_compute. repeat split. Qed.
